@@ -13,7 +13,7 @@ import itertools, json, random
 from core import Case
 
 PROP = 'C13'
-COQ_TARGETS = ['theories/BipFacts.vo', 'theories/IpNetFacts.vo', 'theories/BipDelivFacts.vo', 'theories/BipDelivTie.vo']
+COQ_TARGETS = ['theories/BipFacts.vo', 'theories/IpNetFacts.vo', 'theories/BipDelivFacts.vo', 'theories/BipDelivTie.vo', 'theories/CascadeFacts.vo', 'theories/CascadeStep.vo']
 COQ_IMPORTS = 'From Bac Require Import Base Bip IpNet BipDeliv.'
 RULE = ('node cases: every B/IP node kind x every BVLL function (0..11) x unicast/broadcast arrival x state grid (BDT with/without self, '
         '/32 and /24 masks, FDT 0..3 entries incl. the sender, foreign status -2/-1/0/0x30, matching / non-matching BBMD address, '
@@ -652,14 +652,17 @@ class Net:
             self.nodes.append(ent)
         run_until(0.0)
 
-    FRAME_CAP = 6000      # datagrams per script item; honest items stay below ~1500 (20 s of 1 s renewals)
+    FRAME_CAP = 3000      # datagrams per script item at one instant ...
+    FRAME_RATE = 80       # ... plus this many per virtual second the item spans (honest: <= 6 devices renewing every
+                          # second, 4 datagrams each incl. the routed copies = 24/s)
+    t_item = 0.0
 
     def _frame(self, li, pdu):
         s, d = pdu.pduSource, pdu.pduDestination
-        if len(self.frame_times) > self.FRAME_CAP:
-            # a forwarding loop: stop at once instead of waiting for the task watchdog
+        if len(self.frame_times) > self.FRAME_CAP + self.FRAME_RATE * max(0.0, NOW[0] - self.t_item):
+            # a forwarding loop (unbounded traffic at one instant): stop at once instead of waiting for the task watchdog
             _TM[0].tasks[:] = []
-            raise Watchdog('more than %d datagrams in one script item' % self.FRAME_CAP)
+            raise Watchdog('%d datagrams within %.1f s of virtual time in one script item' % (len(self.frame_times), NOW[0] - self.t_item))
         self.log.append((None, [2, li, ip_int(s[0]), s[1], ip_int(d[0]), d[1]] + frame_canon(pdu.pduData)))
         self.frame_times.append((ms(NOW[0]), self.log[-1][1]))
 
@@ -668,6 +671,7 @@ class Net:
         from bacpypes.pdu import Address, PDU, LocalBroadcast
         del self.log[:]
         del self.frame_times[:]
+        self.t_item = NOW[0]
         run_until(T_ms / 1000.0)
         k = ev[0]
         if k == 'bcast':
